@@ -29,6 +29,21 @@ CLAIMED = {
  "C12": dict(tech="TLC model checking of StoreImpl (Rust vectors/counters transcribed) refining Store.tla; every (state, operation) edge of Store.tla replayed into the real AAFramework and judged by TLC",
              text="MCStoreImpl proves refinement and agreement of all public observations for all concrete states (3 labels/3 ids/4 attack slots; 2 labels/4 ids/5 slots); MCStore exports one history per abstract state (3 labels, <= 4 ids: 13k states) and all 24 outgoing operations of each are executed on AAFramework<usize> and AAFramework<String>; TraceStore compares results and the complete public projection (counts, ids, get/has, iter_attacks, iter_attacks_from/to) at every step; plus random histories.",
              ref="5 (C12), 3.2"),
+ "C06": dict(tech="TLC-judged 'agree' events: one real solver object per configuration answers query sequences; all statuses of a query must coincide",
+             text="For each framework and (semantics, DC|DS), one solver object per (encoder, backend in {embedded CaDiCaL, external process}) answers a seeded sequence of queries with repetitions and alternating certificate flag; TLC checks that the set of statuses obtained for a query over all configurations and positions is a singleton, and that the framework's public projection is unchanged.",
+             ref="5 (C06)"),
+ "C15": dict(tech="Sat.tla contract; MCSat-exported histories replayed on CadicalSolver and ExternalSatSolver; TLC judges every model / UNSAT verdict by brute force",
+             text="One history per distinct solver state of Sat.tla (3 variables, empty/unit/binary clauses) with interleaved solves and all assumption sets, plus random histories over 4-8 variables, on the embedded solver and on external processes (kissat, fakesat); TraceSat carries the clause set and checks model |= clauses and assumptions, UNSAT only if TLC finds no model, n_vars covers declared variables.",
+             ref="5 (C15), 3.5"),
+ "C16": dict(tech="ExtSat.tla process/pipe model checked by TLC (termination of drain-then-wait); ExtReply.tla reply classification exported and replayed through a real process; headers logged by the external program; TLC judges all three",
+             text="(i) every DIMACS instance received by the external program during real queries is checked for nv >= max variable and exact clause count; (ii) TLC proves the drain-then-wait exchange terminates for all volumes around the pipe capacity and four child behaviours, and real calls with replies of 1 KiB..8 MiB, split v lines and early replies must return within a cap; (iii) all replies of <= 3 (4) lines over 13 line kinds are classified by the specification and read by the real parser.",
+             ref="5 (C16), 3.5"),
+ "C17": dict(tech="fault injection at every SAT-call position through the public solver factory + failing external processes; TLC-judged fault events",
+             text="For every query on all frameworks <= 3 arguments (and 4-argument classes, shaped, random) a fault-free run counts the k SAT calls, then k runs return Unknown at position 1..k; six failing process behaviours are run through ExternalSatSolver; TLC checks that an injected fault always aborts the query with neither status nor extension.",
+             ref="5 (C17)"),
+ "C18": dict(tech="SAT calls counted and decoded per component through the public factory/encoder wrappers under exhaustive oracle exploration; bound evaluated by TLC from Dung.tla",
+             text="Every query (single arguments and lists) on all frameworks <= 3 arguments under every SAT-model schedule, plus 4-argument classes, shaped and random frameworks: per query and per component the number of SAT calls (summed over solver instances) must not exceed the bound TLC computes from the component's base family, and PR never examines a candidate twice; a call cap observes non-termination.",
+             ref="5 (C18)"),
 }
 
 NOTE = ("Trusted: TLC + CommunityModules; Dung.tla (cross-checked by MCDung's theorem suite); the harness wrappers around the public extension "
